@@ -172,8 +172,7 @@ func (c *Case) args() []string {
 
 // setup writes the working directory of a case.
 func (c *Case) setup(dir string) error {
-	os.WriteFile(filepath.Join(dir, "wallet.cfg"), []byte(c.W.cfgText(c.Apply)), 0600)
-	os.WriteFile(filepath.Join(dir, ".secret"), []byte(c.W.Pass), 0600)
+	c.W.writeKeyFiles(dir, c.Apply)
 	os.MkdirAll(filepath.Join(dir, "balance"), 0700)
 	for _, f := range c.Funding {
 		raw, err := hex.DecodeString(f)
@@ -362,7 +361,7 @@ func tieSigner(c *Case, tx *btc.Tx, spent []*btc.TxOut, i int, pubs [][]byte, o 
 			digest = tx.WitnessSigHash(scrP2PKH(h160(pub)), spent[i].Value, i, 1)
 		}
 	}()
-	if len(blob) < 9 || len(pub) != 33 || len(digest) != 32 {
+	if len(blob) < 9 || (len(pub) != 33 && len(pub) != 65) || len(digest) != 32 {
 		return
 	}
 	privs, err := walletPrivkeys(&c.W)
@@ -445,6 +444,7 @@ func runSendCase(c *Case, o *vlib.Oracle, v *verdict) {
 		return
 	}
 	unspentBefore, _ := os.ReadFile(filepath.Join(dir, "balance", "unspent.txt"))
+	hitKeyTable(c, pubs, v)
 	res := runWallet(dir, c.args())
 	if res.TimedOut {
 		v.pf("wallet-hang", "the wallet did not terminate within 20 s")
@@ -766,6 +766,7 @@ func runSendCase(c *Case, o *vlib.Oracle, v *verdict) {
 				v.pf("sig-standard", "input %d (spending %x) verifies under consensus but not under standard flags", i, spent[i].Pk_script)
 			} else {
 				v.hit("verified:" + scriptKind(spent[i].Pk_script))
+				v.hit("verified:" + scriptKind(spent[i].Pk_script) + keyClass(pubs, spent[i].Pk_script))
 			}
 			tieDigests(tx, spent, i, o, v)
 			if c.Rfc {
@@ -775,8 +776,11 @@ func runSendCase(c *Case, o *vlib.Oracle, v *verdict) {
 				if tx.SegWit != nil && len(tx.SegWit[i]) == 2 && len(tx.SegWit[i][0]) > 71 {
 					v.pf("minsig", "minsig set but witness signature of input %d has %d bytes", i, len(tx.SegWit[i][0]))
 				}
-				if ss := tx.TxIn[i].ScriptSig; len(ss) > 106 {
-					v.pf("minsig", "minsig set but scriptSig of input %d has %d bytes", i, len(ss))
+				// legacy input: <sig‖hashtype> <pub>; the signature push must be at most 71 bytes whatever the form of the
+				// public key (33 bytes, or 65 for an imported uncompressed key; fix a0bc40ce: the wallet's own bound was a
+				// fixed scriptSig size of 106 and never ended for a 65-byte key)
+				if ss := tx.TxIn[i].ScriptSig; scriptKind(spent[i].Pk_script) == "p2pkh" && len(ss) > 0 && int(ss[0]) > 71 {
+					v.pf("minsig", "minsig set but the signature in the scriptSig of input %d has %d bytes", i, int(ss[0]))
 				}
 			}
 		}
@@ -809,6 +813,54 @@ func runSendCase(c *Case, o *vlib.Oracle, v *verdict) {
 		}
 	}
 	v.key = fmt.Sprintf("%d in %d out %s", len(tx.TxIn), len(tx.TxOut), hx(tx.Hash.Hash[:8]))
+}
+
+// hitKeyTable records the shape of the wallet's key table (input distribution: imported keys, their forms).
+func hitKeyTable(c *Case, pubs [][]byte, v *verdict) {
+	if len(c.W.Others) == 0 {
+		v.hit("keys:deterministic only")
+		return
+	}
+	un := 0
+	for _, p := range pubs {
+		if len(p) != 33 {
+			un++
+		}
+	}
+	v.hit(fmt.Sprintf("keys:%d imported (.others), %d of them uncompressed", c.W.nOthers(), un))
+}
+
+// keyClass: where in keys[] the owner of an own script stands - "" for a wallet without imported keys, else whether the
+// key is imported or deterministic and whether an uncompressed key (nil entry of the SegWit table) precedes it.
+func keyClass(pubs [][]byte, scr []byte) string {
+	anyUn := false
+	for _, p := range pubs {
+		if len(p) != 33 {
+			anyUn = true
+		}
+	}
+	if !anyUn {
+		return ""
+	}
+	seenUn := false
+	for _, p := range pubs {
+		if len(p) != 33 {
+			if bytes.Equal(scr, ownScript("p2pkh", p)) {
+				return " of an uncompressed imported key"
+			}
+			seenUn = true
+			continue
+		}
+		for _, k := range ownKinds {
+			if bytes.Equal(scr, ownScript(k, p)) {
+				if seenUn {
+					return " of a key behind an uncompressed imported key"
+				}
+				return " of a key in front of an uncompressed imported key"
+			}
+		}
+	}
+	return ""
 }
 
 func (c *Case) sendIf() []Dest {
@@ -971,6 +1023,7 @@ func runRawCase(c *Case, o *vlib.Oracle, v *verdict) {
 				v.pf("sig-standard", "raw: owned input %d (spending %x) does not verify under standard flags", i, spent[i].Pk_script)
 			} else {
 				v.hit("verified:" + scriptKind(spent[i].Pk_script))
+				v.hit("verified:" + scriptKind(spent[i].Pk_script) + keyClass(pubs, spent[i].Pk_script))
 			}
 			tieDigests(tx, spent, i, o, v)
 		} else {
@@ -1090,7 +1143,7 @@ func main() {
 		"digest signed = digest verified is PROVED (digests_read_skeleton_only: C02's models of SignatureHash / WitnessSigHash / TaprootSigHash read no scriptSig and no witness; the hash cache stays coherent), for the oracle whose digest requests are those model functions on the signed transaction (DigestsAreC02) - and observed here: the digests computed from the skeleton alone equal the real functions' results on the signed transaction, for every verified input",
 		"wallet keys are taken from the real wallet's own listing (-l -atype pks); key derivation is C14's subject",
 		"amounts and sums < 2^64 (beyond: StringToSatoshis / spendBtc wrap silently — DESIGN O4, observation only)",
-		".others raw-key files, litecoin mode, uncompressed keys, -prompt, scrypt and BIP39 password entry are not exercised",
+		".others raw-key files ARE exercised (1..3 imported keys in front of the deterministic ones, compressed and uncompressed WIF, labels, comment / empty / undecodable lines, wrong-network version byte); an uncompressed key owns its P2PKH address only - P2WPKH / P2TR outputs built from an uncompressed key's hash / x coordinate (which pkscr_to_key would also attribute to it) are not generated; litecoin mode, the deprecated -u switch, -prompt, scrypt and BIP39 password entry are not exercised",
 	}
 
 	if r.Replay != "" {
